@@ -164,7 +164,7 @@ def charge_invariances(ctx):
     lab = labels or ["x", "y", "z"]
     perm = rng.permutation(3)
     mapping = {lab[int(perm[0])]: dnames[0], lab[int(perm[1])]: dnames[1], lab[int(perm[2])]: None}
-    mapping = {k: mapping[k] for k in lab}
+    mapping = gen.shuffle_keys(rng, {k: mapping[k] for k in lab})
     via_sel = rng.random() < 0.2 and dims is None
     info = {"texture": kind, "masked": masked, "n": n, "cell": cell, "pmin": pmin, "dims": dnames,
             "mapping": mapping, "via_sel": via_sel}
